@@ -43,11 +43,15 @@ def _pool():
     from orquestra.quantum.circuits import RX, RZ, U3, XY, CPHASE, CustomGateDefinition, MultiPhaseOperation, X
     a, b, c, d = sympy.symbols("alpha beta gamma_1 delta")
     k = sympy.Symbol("k")
+    from orquestra.quantum.circuits import Delay
+    unused = CustomGateDefinition("unused", sympy.Matrix([[sympy.cos(sympy.Symbol("u1")), -sympy.sin(sympy.Symbol("u1"))], [sympy.sin(sympy.Symbol("u1")), sympy.cos(sympy.Symbol("u1"))]]),
+                                  (sympy.Symbol("u1"), sympy.Symbol("u2")))          # the matrix ignores its second declared parameter
     cust = CustomGateDefinition("cg", sympy.Matrix([[sympy.cos(a), -sympy.sin(b)], [sympy.sin(b) * sympy.exp(sympy.I * a), sympy.cos(a)]]), (a, b))
     base = {
         "RX(a)": RX(a), "RZ(a*b+1)": RZ(a * b + 1), "RX(2*a+b)": RX(2 * a + b), "RZ(a-b+c)": RZ(a - b + c),
         # single-symbol parameters that are NOT linear in the symbol (products, quotients, functions, powers)
         "RX(3*a**2)": RX(3 * a ** 2), "RZ(2*cos(a))": RZ(2 * sympy.cos(a)), "RX(2/a)": RX(2 / a), "RZ(a*exp(a))": RZ(a * sympy.exp(a)), "RX(a*(a+1))": RX(a * (a + 1)),
+        "Delay(a)": Delay(a), "Delay(a+b)": Delay(a + b), "custom(unused parameter)": unused(a, 2 * b),
         "RZ(pi*b**3/4)": RZ(sympy.pi * b ** 3 / 4), "RX(2*sqrt(a))": RX(2 * sympy.sqrt(a)), "RZ(-a)": RZ(-a), "RX(a/3)": RX(a / 3), "U3(a,b,c)": U3(a, b, c), "U3(a,0.3,a+b)": U3(a, 0.3, a + b), "XY(2*c)": XY(2 * c), "CPHASE(a/2)": CPHASE(a / 2),
         "custom(c, a+d)": cust(c, a + d), "custom(0.5, b)": cust(0.5, b), "RX(Sum)": RX(sympy.Sum(a * k, (k, 1, 3))), "RX(1.5)": RX(1.5), "X": X,
     }
@@ -202,6 +206,19 @@ def _check_circuit(i):
     half = cs.bind({special[0]: 0.3, special[3]: -0.6})
     if set(half.free_symbols) != {special[1], special[2], special[4]} or half.bind({special[1]: 1.7, special[2]: 0.0, special[4]: 2}) != bs:
         return False, "partial then total binding of symbols with assumptions differs from binding once"
+    # two DIFFERENT symbols that print the same (different assumptions, two Dummy symbols of one name) stay different: binding one leaves the other
+    th_plain, th_real = sympy.Symbol("theta"), sympy.Symbol("theta", real=True)
+    d1, d2 = sympy.Dummy("t"), sympy.Dummy("t")
+    for x1, x2 in ((th_plain, th_real), (d1, d2)):
+        cc = Circuit([RX(x1)(0), RY(x2)(0), MultiPhaseOperation((x1, x2))], n_qubits=1)
+        if len(cc.free_symbols) != 2:
+            return False, f"two different symbols named {x1} are reported as {cc.free_symbols}"
+        one = cc.bind({x1: 0.4})
+        if set(one.free_symbols) != {x2} or one.operations[1].params != (x2,) or one.operations[0].params[0] != 0.4:
+            return False, f"binding one of two same-named symbols: free symbols {one.free_symbols}, parameters {[o.params for o in one.operations]}"
+        both = cc.bind({x1: 0.4, x2: -1.3})
+        if both.free_symbols or both != one.bind({x2: -1.3}) or float(both.operations[1].params[0]) != -1.3:
+            return False, "a map holding two same-named symbols does not bind each to its own value"
     # two-step binding through a symbolic value: t -> 2*s, then s -> number
     s_, t_ = sympy.symbols("s t")
     for expr, val in ((t_ ** 2, (2 * 0.35) ** 2), (3 * t_ ** 2, 3 * (2 * 0.35) ** 2), (2 * sympy.cos(t_), 2 * float(sympy.cos(0.7))), (t_ / 3, 0.7 / 3)):
